@@ -3,11 +3,13 @@
    value": that model is M1 (Spec.v).  Proved here: in M1 an operation never changes what any other handle reads (frame)
    and the contents of a Bytes only ever shrink to a contiguous sub-range by its own slicing operations.  The tie of the
    code to M1 is the correspondence engine E1 (contents of EVERY live handle after EVERY step, kind c01-contents).
-   C01_refinement (M2 - the representation model - refines M1 for every history) is checked by execution on every
-   generated history (kind model-refinement) and is NOT yet proved: see DESIGN.md §10. *)
+   PROVED about the representation model M2 (HeapFrame.v), for every history of well-typed operations, every oracle and both address parities:
+   C01_representation_frame - an operation that returns leaves every handle it is not applied to unchanged AND that handle reads exactly the same
+   bytes afterwards, whatever shares its buffer (clones, split halves, frozen halves of a BytesMut that keeps writing, reallocation, reclaim).
+   What remains checked by execution only (kind model-refinement) is that the handle(s) an operation IS applied to get the contents M1 says. *)
 From stdpp Require Import gmap.
 From Coq Require Import NArith.
-From BV Require Import Base Heap Spec SpecLaws.
+From BV Require Import Base Heap Spec SpecLaws HeapWF HeapWFOps HeapWFMain HeapFrame.
 
 Theorem C01_frame : forall cap uniq o s s' r h', sstep cap uniq o s = SOk s' r -> h' ∉ touched o -> (h' < snext s)%positive ->
   vals s' !! h' = vals s !! h'.
@@ -23,6 +25,15 @@ Example C01_nonvacuous :
   end.
 Proof. vm_compute. split; reflexivity. Qed.
 
+(* the frame property of the REPRESENTATION model: handles behave as independent values *)
+Theorem C01_representation_frame : forall orcs n s o r s' e', reach orcs n s -> op_ok s o -> run_op (orcs n) o s = OK r s' e' ->
+  forall h y, ~ tch o h -> hs s !! h = Some y -> hs s' !! h = Some y /\ view (sts s') y = view (sts s) y.
+Proof. exact m2_frame_reachable. Qed.
+Theorem C01_clean_panic_changes_nothing : forall orc o s s' e', HeapPanic.clean_panic_op o = true -> run_op orc o s = PANIC s' e' -> s' = s.
+Proof. exact m2_frame_panic. Qed.
+
 Print Assumptions C01_frame.
 Print Assumptions C01_bytes_immutable.
 Print Assumptions C01_nonvacuous.
+Print Assumptions C01_representation_frame.
+Print Assumptions C01_clean_panic_changes_nothing.
